@@ -72,6 +72,8 @@ Case(objs) ==
    lin_eq |-> SumSeq(objs, LAMBDA o : IF o.kind = "lin" THEN o.neq ELSE 0),
    nl_ub  |-> SumSeq(objs, LAMBDA o : IF o.kind = "nl" THEN o.nineq ELSE 0),
    nl_eq  |-> SumSeq(objs, LAMBDA o : IF o.kind = "nl" THEN o.neq ELSE 0),
+   lin_viol |-> MaxSeq(objs, LAMBDA o : IF o.kind = "lin" THEN o.viol ELSE 0),
+   nl_viol  |-> MaxSeq(objs, LAMBDA o : IF o.kind = "nl" THEN o.viol ELSE 0),
    viol   |-> MaxSeq(objs, LAMBDA o : o.viol)]
 
 \* reduced value sets keep the cross products enumerable
